@@ -238,6 +238,52 @@ func stepFamilies() map[string]*stepFamily {
 			}
 			return objType(rels, md)
 		})
+		// reconverging DAGs: every level is reachable through two paths (a visited set keeps this linear)
+		ladder := []int{8, 16, 32, 64}
+		modelFam("computed-ladder", "", ladder, func(n int) *openfgav1.AuthorizationModel {
+			rels, md := map[string]*openfgav1.Userset{}, map[string]*openfgav1.RelationMetadata{}
+			for i := 0; i < n; i++ {
+				a, b2 := fmt.Sprintf("a%03d", i), fmt.Sprintf("b%03d", i)
+				if i == n-1 {
+					rels[a], rels[b2] = gen.This(), gen.This()
+					md[a], md[b2] = direct("user"), direct("user")
+					continue
+				}
+				na, nb := fmt.Sprintf("a%03d", i+1), fmt.Sprintf("b%03d", i+1)
+				rels[a] = gen.Union(gen.Computed(na), gen.Computed(nb))
+				rels[b2] = gen.Inter(gen.Computed(na), gen.Computed(nb))
+			}
+			return objType(rels, md)
+		})
+		modelFam("computed-diamonds", "", ladder, func(n int) *openfgav1.AuthorizationModel {
+			rels, md := map[string]*openfgav1.Userset{}, map[string]*openfgav1.RelationMetadata{}
+			for i := 0; i < n; i++ {
+				a := fmt.Sprintf("a%03d", i)
+				if i >= n-2 {
+					rels[a] = gen.This()
+					md[a] = direct("user")
+					continue
+				}
+				rels[a] = gen.Union(gen.Computed(fmt.Sprintf("a%03d", i+1)), gen.Diff(gen.Computed(fmt.Sprintf("a%03d", i+2)), gen.Computed(fmt.Sprintf("a%03d", i+1))))
+			}
+			return objType(rels, md)
+		})
+		modelFam("ttu-ladder", "", ladder, func(n int) *openfgav1.AuthorizationModel {
+			rels, md := map[string]*openfgav1.Userset{"p": gen.This()}, map[string]*openfgav1.RelationMetadata{"p": direct("t")}
+			for i := 0; i < n; i++ {
+				a, b2 := fmt.Sprintf("a%03d", i), fmt.Sprintf("b%03d", i)
+				if i == n-1 {
+					rels[a], rels[b2] = gen.This(), gen.This()
+					md[a], md[b2] = direct("user"), direct("user")
+					continue
+				}
+				na, nb := fmt.Sprintf("a%03d", i+1), fmt.Sprintf("b%03d", i+1)
+				rels[a] = gen.Union(gen.TTU(na, "p"), gen.TTU(nb, "p"))
+				rels[b2] = gen.Union(gen.This(), gen.TTU(na, "p"), gen.Computed(nb))
+				md[b2] = &openfgav1.RelationMetadata{DirectlyRelatedUserTypes: []*openfgav1.RelationReference{gen.RefRel("t", na)}}
+			}
+			return objType(rels, md)
+		})
 		modelFam("wide-union", "", std, func(n int) *openfgav1.AuthorizationModel {
 			var ch []*openfgav1.Userset
 			for i := 0; i < n; i++ {
@@ -565,7 +611,7 @@ func evaluateFamilies(run *core.Run, results []stepResult) {
 				continue
 			}
 			if r.Hang {
-				bad = fmt.Sprintf("call still running after %d steps (> 50x the quadratic budget of %d bytes)", r.Steps, r.Len)
+				bad = fmt.Sprintf("call stopped while still running after %d steps for %d bytes (more than 50x the quadratic budget, or more than 64x the steps of the previous size)", r.Steps, r.Len)
 			}
 			if float64(r.Steps) > quadBudget(r.Len) {
 				bad = fmt.Sprintf("%d steps for %d bytes exceeds the quadratic budget %.0f", r.Steps, r.Len, quadBudget(r.Len))
